@@ -91,7 +91,7 @@ CHECKS = {
    design='DESIGN.md §3 C06'),
  'C01': dict(
    text='Machine-checked proof (Coq), PARTIAL: for every code-point list written as a string or URI by the model of the ZINC dumper, the model of the reader\'s WHOLE per-version scalar alternation '
-        '(pyparsing Or = longest match over 13 / 18 alternatives) returns that string / URI and exactly the text that followed it; likewise null, marker, Remove, booleans and NA (the longest match winning over N) whenever a delimiter follows; text is always writable; non-finite numbers; document framing. '
+        '(pyparsing Or = longest match over 13 / 18 alternatives) returns that string / URI and exactly the text that followed it; likewise null, marker, Remove, booleans, NA (the longest match winning over N) and references without display name whenever a delimiter follows; text is always writable; non-finite numbers; document framing. '
         'All other kinds, rows, metadata, nested values, multi-grid documents and both versions are decided by the tie (writer model = hszinc.dump text, reader model = hszinc.parse value, on generated grids) '
         'and by the round-trip search on the implementation with a kind-strict comparator.',
    note='PARTIAL: no induction over whole grids is proved. Numbers are CPython text tokens (str(float) / float() are oracles), date-times are compared by instant, offset and zone name through pytz as oracle. '
